@@ -573,6 +573,25 @@ fn scenario_endings(w: &mut World, t: Transport, k: u64, rng: &mut Rng) {
         peer_end(p, reset);
     };
     match k {
+        7 if t != Transport::Ws => {
+            // pending sockets that carry an error other than "refused": inbound connections reset by the
+            // peer while still in the accept queue (they must leave no trace and no descriptor), and an
+            // outbound connect whose acceptor goes away without accepting (it must answer Connected(false))
+            for _ in 0..6 {
+                if let Ok(s) = TcpStream::connect(addr) {
+                    reset_close(s);
+                }
+            }
+            let l = TcpListener::bind("127.0.0.1:0").unwrap();
+            let ep = w.connect(t, l.local_addr().unwrap());
+            eps.push(ep);
+            std::thread::sleep(Duration::from_millis(20));
+            drop(l);
+            w.pump(150);
+            if !w.hist.iter().any(|i| matches!(i, Item::EvConnected(id, _) if *id == ep.resource_id())) {
+                w.leaks.push(format!("connect() returned {} but no Connected event was ever reported for it", ep.resource_id()));
+            }
+        }
         6 if t != Transport::Ws => {
             // a flood: 300 connections are already queued when the listener is polled for the first time;
             // each must be accepted (once) and, after the peers have gone, disconnected (once)
@@ -852,7 +871,7 @@ fn run_scenarios(out: &mut impl std::io::Write, seed: u64, n: u64, only: Option<
         let mut r = Rng::new(1);
         scenario_conn(&mut w, Transport::Tcp, &mut r);
     }
-    const ENDINGS: u64 = 21; // 7 fixed endings x 3 stream transports, before the random scenarios
+    const ENDINGS: u64 = 24; // 8 fixed endings x 3 stream transports, before the random scenarios
     for i in 0..n + ENDINGS {
         if only.map_or(false, |k| k != i) {
             continue
@@ -870,7 +889,7 @@ fn run_scenarios(out: &mut impl std::io::Write, seed: u64, n: u64, only: Option<
         };
         let mut w = World::new();
         w.configured = if fixed { (i / 3) % 2 == 1 } else { rng.chance(1, 3) };
-        w.bad_keepalive = if fixed { (i / 3) % 4 == 3 } else { rng.chance(1, 2) };
+        w.bad_keepalive = if fixed { i / 3 == 3 } else { rng.chance(1, 2) };
         let configured = w.configured;
         let fds_with_node = fds();
         let res = std::panic::catch_unwind(std::panic::AssertUnwindSafe(|| {
